@@ -74,7 +74,7 @@ func (live) Describe() core.EngineInfo {
 		Real:       []string{"goatlang loader, parser, compiler+optimizer, VM (GLOBALFUNC, GLOBALZERO, GLOBALSTRUCT, addMethod, newMethod, Yield), via New/Load/Eval/Call/Set"},
 		Stubs:      []string{"os.DirFS -> SimDisk", "cli.live glue (readline, radovskyb/watcher, goroutines, liveCh) -> session drain with the same behaviour (Load on reload command, Eval otherwise, errors to a stderr sink, drain continues)", "time.Sleep -> Yield + simulated clock", "watcher polling is modelled at generation time: reload events are placed at yields after saves, duplicated, coalesced or delayed"},
 		Assumes:    []string{"entities keep their names and signatures across versions; nothing is removed or re-typed", "a failed load may have applied any part of what it was served (old or served version accepted)", "overlapping loads (a reload landing inside init of a load in progress) leave either version", "a served line that is not byte-identical to a generated line makes its entity unknown until the next clean load"},
-		ProbesWant: []string{"reload_ok", "reload_failed", "reload_depth_1", "reload_depth_2", "reload_depth_3", "fault:torn-save", "fault:spliced-save", "fault:mixed-version-snapshot", "fault:save-during-load", "fault:delete", "obs_d", "obs_fv", "obs_bm", "obs_sf", "obs_im", "obs_iv", "obs_hv", "obs_zv", "obs_sa", "repl_redefine", "set_valued_obs", "reload_identical"},
+		ProbesWant: []string{"reload_ok", "reload_failed", "reload_depth_1", "reload_depth_2", "reload_depth_3", "fault:torn-save", "fault:spliced-save", "fault:mixed-version-snapshot", "fault:save-during-load", "fault:delete", "obs_d", "obs_fv", "obs_bm", "obs_sf", "obs_im", "obs_iv", "obs_hv", "obs_zv", "obs_sa", "repl_redefine", "set_valued_obs", "reload_identical", "reload_single_file"},
 	}
 }
 
@@ -99,6 +99,9 @@ func (live) genSave(r *core.PRNG, w *LiveWorld, ver int, faulty bool) LStep {
 
 func (e live) genReload(r *core.PRNG, w *LiveWorld, ver int, faulty bool) LStep {
 	s := LStep{Kind: "load"}
+	if r.Chance(1, 6) {
+		s = LStep{Kind: "loadfile", File: r.Intn(w.Pkgs[0].NFiles)}
+	}
 	if faulty && r.Chance(1, 6) {
 		s.Faults = append(s.Faults, core.DiskFault{Op: 1 + r.Intn(25), Kind: core.Pick(r, hsDiskFaultKinds), Arg: r.Intn(80)})
 	}
@@ -363,7 +366,9 @@ func (live) Execute(plan any, keep bool) *core.Result {
 	run := &liveRun{p: p, w: w, res: res, table: w.lineTable(), infra: map[string]bool{}, ent: map[int]*entState{},
 		zvals: map[int]map[int]bool{}, nLo: map[int]int{}, nHi: map[int]int{}, refsUp: map[string]bool{}, seen: map[string]int{}, hostFV: map[int]goatlang.Value{}}
 	for pk := range w.Pkgs {
-		run.infra[w.pkgClause(pk)] = true
+		for _, h := range w.entHeader(pk) {
+			run.infra[h] = true
+		}
 	}
 	for i := range w.Ents {
 		run.ent[w.Ents[i].ID] = &entState{vers: map[int]bool{}}
@@ -454,7 +459,7 @@ func (run *liveRun) step(s *LStep, viaYield int) {
 	switch s.Kind {
 	case "save":
 		run.save(s)
-	case "load":
+	case "load", "loadfile":
 		run.load(s, depth)
 	case "repl":
 		run.repl(s, depth)
@@ -726,7 +731,13 @@ func (run *liveRun) load(s *LStep, depth int) {
 		d.Edits = append(d.Edits, core.DiskEdit{AtOp: base + du.AtOp, Path: path, Data: neu, Delete: du.Save.Mode == "delete", InPlace: du.Save.Mode == "spliced"})
 	}
 	editsBefore := d.Fired["edit"]
-	err := run.h.Load("main")
+	arg := "main"
+	if s.Kind == "loadfile" && s.Pkg == 0 && s.File < run.w.Pkgs[0].NFiles {
+		// one file of package main, loaded on its own (Load's file form)
+		arg = run.w.EntFilePath(0, s.File)
+		run.h.C.Inc("reload_single_file")
+	}
+	err := run.h.Load(arg)
 	opsAtEnd := d.Ops
 	if d.Fired["edit"] > editsBefore {
 		run.h.C.Add("fault:save-during-load", d.Fired["edit"]-editsBefore)
@@ -763,6 +774,26 @@ func (run *liveRun) load(s *LStep, depth int) {
 	for id := range sv.damaged {
 		run.ent[id].unknown = true
 		changed++
+	}
+	// a variable initialised from a function takes the version that function has NOW (the
+	// function's own line may not have been served: torn away, or another file)
+	for id := range sv.vers {
+		e := run.w.ent(id)
+		if e == nil || e.Kind != "ivar" || e.Dep == 0 {
+			continue
+		}
+		d := run.w.ent(e.Dep)
+		if d == nil || d.Pkg != e.Pkg || d.File != e.File || d.Kind != "func" {
+			continue
+		}
+		ds, st := run.ent[d.ID], run.ent[id]
+		if clean && !sv.damaged[id] && !sv.shaky[e.Pkg] {
+			st.unknown, st.vers = ds.unknown, map[int]bool{}
+		}
+		st.unknown = st.unknown || ds.unknown
+		for v := range ds.vers {
+			st.vers[v] = true
+		}
 	}
 	for id, vs := range sv.vers {
 		if vals, ok := run.zvals[id]; ok && len(vs) > 0 {
